@@ -24,9 +24,7 @@ def muladd32 (a1 a2 : Reg) (off : Nat) (s : Reg) : List Instr :=
 def muladdcarry32 (a1 a2 : Reg) (off : Nat) (s c : Reg) : List Instr :=
   part1 a1 a2 s ++ [.lslsImm .r5 .r5 15, .addsReg .r6 .r6 c, .alu .adcs .r5 .r5, .ldrImm .r7 .sp off, .addsReg .r6 .r6 .r7] ++ part3 s
 
-/-- data / carry registers alternate: cell `j` puts its high word in `r3` if `j` is even, in `r0` if odd -/
-def dreg (j : Nat) : Reg := if j % 2 = 0 then .r3 else .r0
-def creg (j : Nat) : Reg := if j % 2 = 0 then .r0 else .r3
+/-! data / carry registers alternate along a row: cell `j` puts its high word in `r3` if `j` is even (`…B`), in `r0` if odd (`…A`) -/
 
 /-- one cell of multiplication row 0 (`A`: odd column, high word to `r0`, carry from `r3`; `B`: even column, the other way round):
 `mov r4, r10; ldr d, [r2, #jo]; mulcarry32 r4, d, d, c; str r6, [sp, #jo]` -/
